@@ -8,6 +8,9 @@
    starts with a private copy of its bases' handlers (first base first); later
    registrations on a base do not reach it and vice versa.
 
+   Firing an event runs tab[m][e] in order and is NOT an action: it changes no table, however often and whenever it happens
+   (the replay fires every event on every manager after every operation, also while nobody listens yet).
+
    C14: "Listeners run in registration order, a listener registered twice runs
    once, and service-level listeners are inherited by subclasses."             *)
 EXTENDS Naturals, Sequences, FiniteSets, TLC
